@@ -510,3 +510,91 @@ Proof.
   - intros (r & <- & Hr). right. left. exists r. split; [exact Hr|].
     unfold run_cells. cbn [repeat]. left. reflexivity.
 Qed.
+
+(* ------------------------------------------------------------------ *)
+(* Keep::First positionally, when nulls are only a prefix and/or suffix *)
+
+Lemma filter_none {A} (p : A -> bool) l : (forall x, In x l -> p x = false) -> filter p l = [].
+Proof.
+  induction l as [|x l IH]; intros H; [reflexivity|].
+  cbn [filter]. rewrite (H x (or_introl eq_refl)). apply IH. intros y Hy. apply H. right. exact Hy.
+Qed.
+
+Lemma filter_map_comm {A B} (f : A -> B) (p : B -> bool) l :
+  filter p (map f l) = map f (filter (fun x => p (f x)) l).
+Proof.
+  induction l as [|x l IH]; [reflexivity|]. cbn [map filter]. rewrite IH. destruct (p (f x)); reflexivity.
+Qed.
+
+Lemma seq_add a n : seq a n = map (Nat.add a) (seq 0 n).
+Proof.
+  revert a; induction n as [|n IH]; intros a; [reflexivity|].
+  cbn [seq map]. rewrite Nat.add_0_r. f_equal. rewrite (IH (S a)), (IH 1), map_map.
+  apply map_ext. intros k. lia.
+Qed.
+
+Definition mk (a : nat) (vs : list Z) (b : nat) : list (option Z) :=
+  repeat (@None Z) a ++ map Some vs ++ repeat None b.
+
+Section Pos.
+  Variables (b : nat) (vs : list Z).
+  Notation xs a := (mk a vs b).
+
+  Lemma xs_null_lo a k : k < a -> nth_error (xs a) k = Some None.
+  Proof.
+    intros H. unfold mk. rewrite nth_error_app1 by (rewrite repeat_length; lia).
+    rewrite nth_error_repeat. replace (k <? a) with true by (symmetry; apply Nat.ltb_lt; lia). reflexivity.
+  Qed.
+
+  Lemma xs_mid a k : k < length vs -> nth_error (xs a) (a + k) = option_map Some (nth_error vs k).
+  Proof.
+    intros H. unfold mk. rewrite nth_error_app2 by (rewrite repeat_length; lia).
+    rewrite repeat_length. replace (a + k - a) with k by lia.
+    rewrite nth_error_app1 by (rewrite map_length; lia). apply nth_error_map.
+  Qed.
+
+  Lemma xs_null_hi a k : a + length vs <= k -> k < a + length vs + b -> nth_error (xs a) k = Some None.
+  Proof.
+    intros H1 H2. unfold mk. rewrite nth_error_app2 by (rewrite repeat_length; lia).
+    rewrite repeat_length. rewrite nth_error_app2 by (rewrite map_length; lia).
+    rewrite map_length, nth_error_repeat.
+    replace (k - a - length vs <? b) with true by (symmetry; apply Nat.ltb_lt; lia). reflexivity.
+  Qed.
+
+  Lemma first_b_pointwise a k : k < length vs ->
+    first_of_run_b (xs a) (a + k) = first_b (None :: map Some vs) k.
+  Proof.
+    intros Hk. unfold first_of_run_b, first_b.
+    rewrite (xs_mid a k Hk). cbn [nth_error]. rewrite nth_error_map.
+    destruct (nth_error vs k) as [v|] eqn:Ev; [|apply nth_error_None in Ev; lia].
+    cbn [option_map].
+    destruct k as [|k'].
+    - cbn [nth_error]. rewrite Nat.add_0_r. destruct a as [|a']; [reflexivity|].
+      rewrite xs_null_lo by lia. reflexivity.
+    - replace (a + S k') with (S (a + k')) by lia.
+      rewrite (xs_mid a k') by lia. cbn [nth_error]. rewrite nth_error_map.
+      destruct (nth_error vs k') as [u|] eqn:Eu; [|apply nth_error_None in Eu; lia].
+      reflexivity.
+  Qed.
+
+  Lemma first_positional_aux a :
+    firstZ (xs a) = filter (first_of_run_b (xs a)) (seq 0 (length (xs a))).
+  Proof.
+    unfold firstZ, uidx_first. fold first_go. unfold mk at 1.
+    rewrite first_go_nulls, Nat.add_0_r, first_go_values, first_scan_filter.
+    assert (Hl : length (xs a) = a + (length vs + b))
+      by (unfold mk; rewrite !app_length, !repeat_length, map_length; reflexivity).
+    rewrite Hl, !seq_app, !filter_app. cbn [plus].
+    rewrite (filter_none (first_of_run_b (xs a)) (seq 0 a)).
+    2:{ intros k Hk. apply in_seq in Hk. unfold first_of_run_b. rewrite xs_null_lo by lia. reflexivity. }
+    rewrite (filter_none (first_of_run_b (xs a)) (seq (a + length vs) b)).
+    2:{ intros k Hk. apply in_seq in Hk. unfold first_of_run_b. rewrite xs_null_hi by lia. reflexivity. }
+    rewrite app_nil_r. cbn [app].
+    rewrite (seq_add a (length vs)), filter_map_comm. f_equal.
+    apply filter_ext_in_seq. intros k Hk. symmetry. apply first_b_pointwise. exact Hk.
+  Qed.
+End Pos.
+
+Theorem first_positional xs :
+  nulls_at_ends xs -> firstZ xs = filter (first_of_run_b xs) (seq 0 (length xs)).
+Proof. intros (a & vs & b & ->). apply (first_positional_aux b vs a). Qed.
